@@ -19,10 +19,33 @@ OUTCOMES = (
 )
 
 
-def run(cfg, query, variables, kinds, sched, n_instr, n_mw):
+HOOKS = ("on_query_start", "on_query_end", "on_parsing_start", "on_parsing_end", "on_validation_start", "on_validation_end", "on_execution_start", "on_execution_end",
+         "on_field_start", "on_field_end")
+_ALL = (1 << len(HOOKS)) - 1
+# which hooks a stacked instrumentation overrides (the others are inherited from Instrumentation): none extra, every single hook, everything but one hook,
+# only starts, only ends, only field hooks, only stage hooks
+PARTIALS = (None,) + tuple(1 << i for i in range(len(HOOKS))) + tuple(_ALL ^ (1 << i) for i in range(len(HOOKS))) + (0b0101010101, 0b1010101010, 0b1100000000, 0b0011111111)
+
+
+def hook_of(event):
+    return "on_%s_%s" % (event[0], event[1])
+
+
+def partial_recorder(log, mask):
+    from py_gql.execution import Instrumentation
+    ns = {name: getattr(W.Recorder, name) for i, name in enumerate(HOOKS) if mask >> i & 1}
+    cls = type("Partial", (Instrumentation,), ns)
+    obj = cls()
+    obj.log, obj.name = log, "p"
+    return obj
+
+
+def run(cfg, query, variables, kinds, sched, n_instr, n_mw, partial=None, ppos=0):
     log = []
     recs = [W.Recorder(log, "i%d" % i) for i in range(n_instr)]
-    instr = recs[0] if n_instr == 1 else MultiInstrumentation(*recs)
+    if partial is not None:
+        recs.insert(ppos, partial_recorder(log, partial))
+    instr = recs[0] if len(recs) == 1 else MultiInstrumentation(*recs)
     mws = [W.make_middleware(log, "mw%d" % i) for i in range(n_mw)]
     kw = dict(instrumentation=instr, middlewares=mws, variables=variables, log=log)
     if cfg == 0:
@@ -36,8 +59,29 @@ def run(cfg, query, variables, kinds, sched, n_instr, n_mw):
     return got, w, log
 
 
+def check_partial(log, n_instr, mask, ppos):
+    """the partially overriding instrumentation sees exactly the events of the hooks it overrides, at its place in the stack"""
+    full = [e[1:] for e in log if e[0] == "i0"]
+    mine = [(k, e[1:]) for k, e in enumerate(log) if e[0] == "p"]
+    want = [e for e in full if mask >> HOOKS.index(hook_of(e)) & 1]
+    if sorted(map(repr, [e for _, e in mine])) != sorted(map(repr, want)):
+        return "partial instrumentation (hooks %s) saw %r, expected %r" % ([h for i, h in enumerate(HOOKS) if mask >> i & 1], [e for _, e in mine], want)
+    for k, e in mine:
+        for j in range(n_instr):
+            at = [i for i, x in enumerate(log) if x == ("i%d" % j,) + e]
+            if len(at) != 1:
+                return "event %r seen %d times by i%d" % (e, len(at), j)
+            before_in_stack = j < ppos
+            if e[1] == "start" and (at[0] < k) != before_in_stack:
+                return "start %r: wrong order between the partial instrumentation and i%d" % (e, j)
+            if e[1] == "end" and (at[0] < k) != (not before_in_stack):
+                return "end %r: wrong order between the partial instrumentation and i%d" % (e, j)
+    return ""
+
+
 def check_log(log, n_instr, n_mw, stages, got):
     """pushdown checker over the event log; returns '' or a description of the first problem"""
+    log = [e for e in log if e[0] != "p"]
     names = ["i%d" % i for i in range(n_instr)]
     # --- stacking: every hook event appears as a block of n_instr entries, starts in order, ends reversed
     hooks = [e for e in log if e[0] in names]
@@ -95,21 +139,23 @@ def check_log(log, n_instr, n_mw, stages, got):
     return ""
 
 
-def _hooks(o: int, cfg: int, ni: int, nm: int, s0: int, s1: int, s2: int, s3: int, s4: int, s5: int) -> bool:
+def _hooks(o: int, cfg: int, ni: int, nm: int, s0: int, s1: int, s2: int, s3: int, s4: int, s5: int, pv: int = 0, pp: int = 0) -> bool:
     """
-    pre: 0 <= o < len(OUTCOMES) and 0 <= cfg <= 3 and 1 <= ni <= 3 and 0 <= nm <= 3
+    pre: 0 <= o < len(OUTCOMES) and 0 <= cfg <= 3 and 1 <= ni <= 3 and 0 <= nm <= 3 and 0 <= pv < len(PARTIALS) and 0 <= pp <= ni and (pv > 0 or pp == 0)
+    pre: pv == 0 or thorough() or (ni == 1 and nm == 0 and s1 == 0 and s2 == 0)
     pre: 0 <= s0 <= 5 and 0 <= s1 <= 4 and 0 <= s2 <= 3 and 0 <= s3 <= 2 and 0 <= s4 <= 1 and s5 == 0
-    pre: shard_of(o * 4 + cfg)
+    pre: shard_of(o * 4 + cfg + pv * 7 + s0 * 3)
     pre: ni == 1 or nm <= 1 or thorough()
     post: _
     """
     label, query, variables, kinds, stages = pick(o, OUTCOMES)
     C, NI, NM = concrete_int(cfg, 0, 3), concrete_int(ni, 1, 3), concrete_int(nm, 0, 3)
+    PV, PP = pick(pv, PARTIALS), concrete_int(pp, 0, 3)
     sched = [s0, s1, s2, s3, s4, s5]
     if C <= 1 and any(s != 0 for s in sched):
         return result(True, False)
     with untraced():
-        got, w, log = run(C, query, variables, kinds, sched, NI, NM)
+        got, w, log = run(C, query, variables, kinds, sched, NI, NM, PV, PP)
         if got[0] == "pruned":
             return result(True, False)
         steps = getattr(w, "steps", 0)
@@ -118,16 +164,20 @@ def _hooks(o: int, cfg: int, ni: int, nm: int, s0: int, s1: int, s2: int, s3: in
             return result(True, False)
     with untraced():
         problem = check_log(log, NI, NM, stages, got) if got[0] == "ok" else "request did not produce a result: %r" % (got,)
+        if not problem and PV is not None:
+            problem = check_partial(log, NI, PV, PP)
     return result(problem == "", True)
 
 
 CONDITIONS = [
     Cond(
-        name="hooks", fn=_hooks, quick=150, thorough=900, per_path=60, shards_quick=16, shards_thorough=32,
+        name="hooks", fn=_hooks, quick=200, thorough=900, per_path=60, shards_quick=16, shards_thorough=32,
         bound="8 request outcomes (syntax / validation / variable error, flat and nested success, partial failure with ResolverError, mutation, failing parent) x 4 configurations "
-              "x 1..3 stacked instrumentations x 0..3 middlewares (quick: not both > 1) x EVERY completion order",
-        symbolic={"o": "choice: outcome", "cfg": "choice: configuration", "ni": "choice: stacked instrumentations", "nm": "choice: middlewares", "s0..s5": "choice: completion order"},
+              "x 1..3 stacked instrumentations x 0..3 middlewares (quick: not both > 1) x EVERY completion order "
+              "x an extra stacked instrumentation that overrides only SOME hooks (%d patterns: each single hook, all but one, starts, ends, field hooks, stage hooks) at every stack position "
+              "(quick: next to one full recorder, no middleware, first completion choice free only)" % (len(PARTIALS) - 1),
+        symbolic={"o": "choice: outcome", "cfg": "choice: configuration", "ni": "choice: stacked instrumentations", "nm": "choice: middlewares", "s0..s5": "choice: completion order", "pv,pp": "choice: partially overriding instrumentation and its stack position"},
         assumptions=["as C08 (stub pool, DetLoop)", "oracle: pushdown checker over the recorded event log (check_log)"],
-        witness={"o": 4, "cfg": 2, "ni": 2, "nm": 1, "s0": 0, "s1": 0, "s2": 0, "s3": 0, "s4": 0, "s5": 0},
+        witness={"o": 4, "cfg": 2, "ni": 1, "nm": 0, "s0": 0, "s1": 0, "s2": 0, "s3": 0, "s4": 0, "s5": 0, "pv": 10, "pp": 1},
     ),
 ]
